@@ -819,7 +819,6 @@ func (s *seqDriver) opBatched(step int) {
 		}
 	}
 	exp := s.reorgExpectations(start, tip)
-	s.log(opRec{Op: "batched-heads", Arg: note, Txs: specs})
 	s.c.Count("op_batched", 1)
 	s.c.Count("batched_head_events", len(heads))
 	s.feat("batched")
@@ -837,6 +836,7 @@ func (s *seqDriver) opBatched(step int) {
 			s.feat("batched-with-submission")
 		}
 	}
+	s.log(opRec{Op: "batched-heads", Arg: note, Txs: specs}) // after the verdicts have been filled in
 	if s.conc {
 		return
 	}
